@@ -348,7 +348,7 @@ EVM_MC = dict(module="MC_Evm.tla", cfg="MC_Evm.cfg", timeout=1500, quick={"MaxLe
 EVM_SIM = dict(module="MC_Evm.tla", cfg="MC_EvmSim.cfg", family="evm", num=(40, 500), depth=300, timeout=3000,
                quick={"MaxLen": "90"}, thorough={"MaxLen": "120"}, script_cfg="cfg_evm.json", script_extra={"evm": "ethereum"})
 
-MINTER_MC = dict(module="MC_Minter.tla", cfg="MC_Minter.cfg", timeout=1500, quick={"MaxLen": "5"}, thorough={"MaxLen": "7"})
+MINTER_MC = dict(module="MC_Minter.tla", cfg="MC_Minter.cfg", timeout=2400, quick={"MaxLen": "5"}, thorough={"MaxLen": "6"})
 MINTER_SIM = dict(module="MC_Minter.tla", cfg="MC_MinterSim.cfg", family="minter", num=(10, 150), depth=400, timeout=6000,
                   quick={"MaxLen": "90"}, thorough={"MaxLen": "120"}, script_cfg="cfg_minter.json")
 
